@@ -15,6 +15,7 @@ type Dec struct {
 	C  []int `json:"c"`
 	E  int   `json:"e"`
 	CS int   `json:"cs"`
+	Hp bool  `json:"hp,omitempty"` // case field: build the coefficient heap-backed (a BigInt that was once wider than 128 bits)
 }
 
 // Ctx is the projection of an apd.Context.
@@ -61,7 +62,17 @@ func decDec(j Dec) *apd.Decimal {
 	d.Form = apd.Form(j.F)
 	d.Negative = j.N
 	d.Exponent = int32(j.E)
-	d.Coeff.SetMathBigInt(bigOfLimbs(j.C))
+	v := bigOfLimbs(j.C)
+	if j.Hp {
+		// grow beyond the inline array, then shrink in place: the value is v, the storage stays on the heap
+		huge := new(big.Int).Lsh(big.NewInt(1), 300)
+		d.Coeff.SetMathBigInt(new(big.Int).Add(huge, v))
+		var h apd.BigInt
+		h.SetMathBigInt(huge)
+		d.Coeff.Sub(&d.Coeff, &h)
+	} else {
+		d.Coeff.SetMathBigInt(v)
+	}
 	return d
 }
 
